@@ -7,6 +7,12 @@
 // real code asked the server for one more answer). The server records every
 // request it receives; a recording RoundTripper (delegating unchanged to a real
 // http.Transport) and a recording BackOff observe Send's own attempts.
+//
+// Status answers may carry a response header the client could interpret
+// (Retry-After in its two syntaxes, valid / stale / unparsable; Connection:
+// close). Package time inside httputil.go is replaced by checks/c34/vtime
+// (overlay.spec.json), so whatever delay Send derives from the backoff or from
+// such a header is recorded, not waited.
 package main
 
 import (
@@ -155,6 +161,7 @@ type RoundTrip struct {
 	Err    string `json:"err,omitempty"`
 	Status int    `json:"status,omitempty"`
 	Wire   int64  `json:"bytes_written"` // bytes the client put on the wire during it (all connections)
+	By     int    `json:"answered_by"`   // index of the request (Attempts) whose answer this attempt returned; -1: it returned an error
 }
 
 // Obs is everything observed in one execution.
@@ -394,11 +401,16 @@ func (t *recRT) RoundTrip(req *http.Request) (*http.Response, error) {
 	}
 	t.cs.rt.Store(int64(i))
 	resp, err := t.inner.RoundTrip(req)
+	t.cs.mu.Lock()
+	by := len(t.cs.attempts) - 1 // attempts are sequential: the answer just returned is the one to the latest request
+	t.cs.mu.Unlock()
 	t.mu.Lock()
 	if err != nil {
 		t.rts[i].Err = normErr(err.Error())
+		t.rts[i].By = -1
 	} else {
 		t.rts[i].Status = resp.StatusCode
+		t.rts[i].By = by
 	}
 	t.mu.Unlock()
 	return resp, err
@@ -1032,10 +1044,12 @@ func check(c Case, o *Obs) []vio {
 		}
 	}
 	// clause 4: retrying stops when the backoff is exhausted
-	// (class: what the answer to the last allowed attempt carried, when requests and attempts correspond one to one)
+	// (fingerprint class: the response header carried by the answer to the last allowed attempt)
 	lastAllowed := ""
-	if len(o.RoundTrips) > maxRT && len(o.Attempts) == len(o.RoundTrips) {
-		lastAllowed = carried("the answer to the last allowed attempt", o.Attempts[maxRT-1].Sym)
+	if len(o.RoundTrips) > maxRT {
+		if by := o.RoundTrips[maxRT-1].By; by >= 0 && by < len(o.Attempts) {
+			lastAllowed = carried("the answer to the last allowed attempt", o.Attempts[by].Sym)
+		}
 	}
 	if len(o.RoundTrips) > maxRT {
 		add("more attempts than the backoff allows"+lastAllowed, "%d attempts by Send, backoff allows 1+%d; answers %v", len(o.RoundTrips), maxRT-1, c.Script)
@@ -1631,7 +1645,8 @@ func configs(thorough bool) []item {
 		}
 		hdrProduct(&out, true, 3, hb, conns, []int{-1, 0}, variants)
 		hdrProduct(&out, false, 3, hb, two, []int{1}, variants)
-		hdrProduct(&out, false, 2, map[string][]bs{"POST": {{"none", 0}, {"bytes.Reader", 3}, {"io.Reader", 3}}, "GET": {{"none", 0}}}, two, []int{2}, variants)
+		hdrProduct(&out, false, 2, map[string][]bs{"POST": {{"none", 0}, {"bytes.Reader", 3}, {"io.Reader", 3}}, "GET": {{"none", 0}}}, two, []int{2}, []string{"default"})
+		hdrProduct(&out, false, 2, map[string][]bs{"POST": {{"bytes.Reader", 3}}}, []string{"fresh"}, []int{2}, []string{"accept503", "extra400"})
 		hdrProduct(&out, false, 1, map[string][]bs{"POST": {{"none", 0}, {"bytes.Reader", 3}}}, two, []int{3}, []string{"default"})
 		// ... and model transport
 		modelHdrProduct(&out, 3, 3, false, map[string][]bs{"POST": bodiesOf(mk, []int{0, 3}), "GET": {{"none", 0}, {"bytes.Reader", 3}}}, []int{-1, 0})
@@ -1752,10 +1767,13 @@ func main() {
 	run := evid.New("C34", "exploration")
 	run.Rule = "Part A (real transport). For every configuration (method x body kind x size x connection mode {fresh, keep-alive, warm pooled} x retry limit x accepted/extra-retry code variant; plain nested loops, full product of the listed domains) the tree of server answers is enumerated exhaustively and lazily depth-first by the check's own loop (equivalent to vrt.Choose in sequential mode): a script of answers is extended by EVERY symbol of the alphabet {drop after reading the whole body, drop after reading k body bytes (every k<N for N<=4), 429/502/503/504/extra-code/500 with empty and non-empty response bodies, 200, 404} exactly when the real Send (real net/http transport, loopback httptest server) asked the server for one more answer. Body kinds: none | bytes.Reader, strings.Reader, bytes.Buffer (GetBody) | io.Reader | ReadSeeker without Close | *io.SectionReader over a section starting at offset 1 of its ReaderAt | *os.File | struct{io.ReadSeeker}{*os.File} (Close hidden) | ReadSeeker with a Close that leaves it usable -- each handed over at offset 0 and at offset 1 of its underlying data (original body = what the reader yields from its position when Send is called). " +
 		"Part B (model transport). The same body kinds x sizes x retry limits run through the real Send and the real http.Client over a scripted RoundTripper; its answer tree is enumerated the same way over the alphabet {200, 404, 503 (+429/502/504/500 in thorough), network error: after reading the body to EOF and closing it} + {503, network error: delivered when only k body bytes have been read (k in {0,1,N}; every k<=N in thorough); the body then stays with that attempt's write loop (RoundTripper contract: the body may be read and closed after RoundTrip returned), which reads j in {0,1,up to EOF} more bytes and closes it at point p in {B: when Send asks the backoff, R: when the next RoundTrip starts, M: after the next attempt has read its first body byte}}; deeper retry limits use the stated sub-alphabets (level 1: j in {1,EOF}, p in {R,M}; level 0: additionally k=1 only). " +
+		"Response headers (both parts, header block). The status answers additionally come with a response header the client may interpret: Retry-After: 0 | 1 | an HTTP date in the past (2015) | an HTTP date in the future (2999) | unparsable ('soon') (thorough: also 120 and -1), or Connection: close -- the full product {429, 503, a rejected non-retryable code (400, which is the extra retry code in the extra400 variant; model: 404), accepted 200 (and 503 in the accept503 variant)} x {those headers} (thorough: also 502, 504, 404, 500 and 503 with a response body) is added to the alphabet and every sequence of plain and header-carrying answers that Send asks for is executed: part A for {POST without body, POST bytes.Reader, POST io.Reader, GET} x {fresh, keep-alive} x retry limit {no SendRetry, 0, 1} x the three code variants (thorough: more body kinds, warm connections), retry limit 2 (thorough: 3) with the stated header sub-alphabet {503, 200} x {0, 1, past date} + 429 future date + 503 Connection: close; part B for every body kind x size {0,3} x retry limit {no SendRetry, 0, 1} (early answers of level 0), retry limit 2 with the sub-alphabet. The oracle is unchanged: a header never allows an attempt beyond the backoff (in particular none without SendRetry and none after Stop), never makes an accepted answer retried, and every attempt still carries the complete original request. " +
 		"Oracle per execution (both parts): every request received has the original method/URI/headers/complete body (for an attempt answered after k bytes: those k bytes are the original's first k); every Send-level attempt (RoundTrip) reached the server; nil error only for an answered attempt with the complete body; no request after an accepted answer; attempts <= 1+retry limit and none after the backoff said Stop. distinct = distinct (configuration, script) leaves in which Send actually retried."
+	run.Assume("no delay is ever waited: package time inside utils/httputil/httputil.go is replaced through the build overlay by checks/c34/vtime, whose Sleep / After / NewTimer record the requested delay and return at once (everything else is the real package time), so a delay taken from the backoff or from a response header (Retry-After of seconds, minutes, centuries) costs nothing; the recorded delays are reported as counters and are not part of the oracle (the statement says nothing about how long Send waits)")
 	run.Assume("zero back-off (cenkalti ZeroBackOff / constant 0) so no wall-clock is involved; the client timeout (30 s) never fires (a timeout is a harness error); part B uses SendTimeout(0) (nothing can block in the model transport, and no per-attempt timer goroutines are left behind)")
 	run.Assume("part A: the server reads the request body (or the chosen k-byte prefix) before it answers or drops, so what the client managed to write is determined by the script, not by a race, and the real Transport is done with the body when RoundTrip returns; for 70 kB bodies a mid-body drop leaves a racy remainder in non-rewindable readers, which only affects how incomplete a retry is, not whether it is")
 	run.Assume("part B: the model RoundTripper models the http.RoundTripper contract, not net/http's Transport internals; a lingering write loop finishes (reads, then closes) at the latest during the next attempt; early answers are never accepted statuses (whether an accepted answer to a partially read body is a success is not decided by the statement); response bodies are empty")
+	run.Assume("response headers: one header per answer; Location on a 3xx answer is not in the alphabet (the http.Client would follow it inside one attempt of Send; redirects are out of scope), nor are headers on dropped connections (there is no response)")
 	run.Assume("http->https fallback (SendTLS) and redirects are out of scope; a status that is both accepted and configured as an extra retry code is a contradictory configuration and is left out of the alphabet")
 	run.Assume("small-scope: body sizes {0,1,3,70000} (part B {0,1,3,5}), hand-over offsets {0,1}, retry limits <= 3, one extra retry code (400)")
 	if p := run.ReplayPath(); p != "" {
